@@ -771,7 +771,30 @@ func c17Components(s *Suite, rng *Rng, thorough bool) {
 			}
 			names := []string{"x"}
 			env.Add("x", x)
-			fromSecrets, proof := env.VerifPrimeBuild("x", bl, c)
+			// the library's prover derives its base a as (random + hash) mod x and gives up with a panic when that is 0
+			// ("rare generation error"): probability 1/x, negligible for the primes of a real key, a few percent for the
+			// 4..6-bit primes of this component test; the prover is then simply run again
+			var fromSecrets []*gbig.Int
+			var proof keyproof.PrimeProof
+			for try := 0; ; try++ {
+				gaveUp := false
+				func() {
+					defer func() {
+						if r := recover(); r != nil {
+							if msg, ok := r.(string); ok && msg == "Generated a outside of Z*" && try < 50 {
+								gaveUp = true
+								return
+							}
+							panic(r)
+						}
+					}()
+					fromSecrets, proof = env.VerifPrimeBuild("x", bl, c)
+				}()
+				if !gaveUp {
+					break
+				}
+				s.Dist["prime:prover-gave-up-and-was-rerun"]++
+			}
 			envp := env.Proofs(c)
 			c17Component(s, rng, "prime", false, fromSecrets, true, &proof, 12, func(p interface{}) (bool, []*gbig.Int, bool, V) {
 				pr := p.(*keyproof.PrimeProof)
